@@ -6,11 +6,13 @@ parts, every buffer size and every number of parser threads.
 Composition of C03 (agent-Split: `C03_parts_cover`, `C03_no_error`, the chunk facts of `nextChunk_text`) with
 the C11 theorems (`C11_fillData_rows`, hence `C11_block_is_concat_of_lines_*` and the cut theorems).
 Bridging lemmas: DmlcModel/Parse/SplitBridge.lean (C03's canonical lines = non-empty `eolSplit` lines; the chunks of
-a part are non-empty, NUL-free and end with an end-of-line byte).
+a part are non-empty, NUL-free and end with an end-of-line byte), DmlcModel/Parse/ChunkBound.lean (no chunk of a
+part is longer than `2 * totalSize files + 1` bytes).
 -/
 import DmlcModel.Props.C03
 import DmlcModel.Props.C11
 import DmlcModel.Parse.SplitBridge
+import DmlcModel.Parse.ChunkBound
 
 namespace DmlcModel.Props.C11
 open DmlcModel DmlcModel.Parse
@@ -73,14 +75,12 @@ local conversion: if no single line makes the parser throw (`hl`: every non-empt
 own) and the rows agree on their optional parts (`ha`), then the parts `0 … n-1`, each read chunk by chunk through
 FillData's `nt` thread slices, deliver exactly the rows of the lines, in order:
 `pipelineRows = ((files.flatMap lines).flatMap parseLine)`.
-Residual hypothesis (`hsz`): every chunk is shorter than 2^63 - nt bytes (true of any real buffer; C03 exports no
-bound on the chunk length). -/
+The size condition of `C11_fillData_rows` (chunk length + nt < 2^63) is discharged here: every chunk is at most
+`2 * totalSize files + 1 < 2^56 + 1` bytes long (`part_chunks_length`). -/
 theorem C11_pipeline (f : Format) (conv : Conv) (hL : conv.Local) (files : List Bytes) (n w dw nt : Nat)
     (trail : Bytes → Bytes) (htrail : ∀ b, trail b ≠ [])
     (hfiles : files ≠ []) (hne : ∀ fl ∈ files, fl ≠ [] ∧ Split.NulFree fl) (ht : Split.totalSize files < 2^55)
     (hn0 : 0 < n) (hn : n < 2^32) (hw : w < 2^56) (h1 : 1 ≤ nt) (hnt : nt < 4294967296)
-    (hsz : ∀ k, k < n → ∀ bs, Split.partBlobs Split.Fmt.text files k n w dw (fun _ => false) = .ok bs →
-      ∀ b ∈ bs, b.length + nt < 9223372036854775808)
     (rss : List (List Row)) (hl : (files.flatMap Split.lines).mapM (rows f conv) = .ok rss)
     (ha : AgreeRows rss.flatten) :
     pipelineRows f conv nt trail files n w dw = .ok rss.flatten := by
@@ -92,11 +92,13 @@ theorem C11_pipeline (f : Format) (conv : Conv) (hL : conv.Local) (files : List 
     | .error _ => []
   have hpart : ∀ k, k < n → ∃ bs, Split.partBlobs Split.Fmt.text files k n w dw (fun _ => false) = .ok bs ∧ bsOf k = bs ∧
       Split.linesOf (Split.partBlobs Split.Fmt.text files k n w dw (fun _ => false)) = bs.flatMap Split.lines ∧
-      ∀ b ∈ bs, b ≠ [] ∧ Split.EndsEol b ∧ Split.NulFree b := by
+      (∀ b ∈ bs, b ≠ [] ∧ Split.EndsEol b ∧ Split.NulFree b) ∧
+      ∀ b ∈ bs, b.length + nt < 9223372036854775808 := by
     intro k hk
     obtain ⟨bs, hbs⟩ := C03.C03_no_error files n w dw hfiles hne ht hn hw k hk (fun _ => false)
     have hfacts := part_chunks_facts files k n w dw hfiles hne ht hk hn hw bs hbs
-    refine ⟨bs, hbs, by simp only [bsOf, hbs], ?_, hfacts⟩
+    have hlen := part_chunks_length files k n w dw hfiles hne ht hk hn hw bs hbs
+    refine ⟨bs, hbs, by simp only [bsOf, hbs], ?_, hfacts, fun b hb => by have := hlen b hb; omega⟩
     rw [hbs]
     simp only [Split.linesOf]
     exact Split.CoverAux.flatMap_congr_mem _ _ _ (fun b hb => Split.canon_eq_lines b (hfacts b hb).2.2)
@@ -104,13 +106,13 @@ theorem C11_pipeline (f : Format) (conv : Conv) (hL : conv.Local) (files : List 
     rw [← hcover]
     apply Split.CoverAux.flatMap_congr_mem
     intro k hk
-    obtain ⟨bs, _, h2, h3, _⟩ := hpart k (List.mem_range.mp hk)
+    obtain ⟨bs, _, h2, h3, _, _⟩ := hpart k (List.mem_range.mp hk)
     rw [h3, h2]
   rw [hlines] at hl
   unfold pipelineRows
   apply regroup (rows f conv) (fun k => (bsOf k).flatMap Split.lines) _ (List.range n) _ rss hl ha
   intro k hk rb hrb harb
-  obtain ⟨bs, hbs, h2, _, hfacts⟩ := hpart k (List.mem_range.mp hk)
+  obtain ⟨bs, hbs, h2, _, hfacts, hsz⟩ := hpart k (List.mem_range.mp hk)
   unfold partRows
   rw [hbs]
   simp only
@@ -118,6 +120,6 @@ theorem C11_pipeline (f : Format) (conv : Conv) (hL : conv.Local) (files : List 
   apply regroup (rows f conv) Split.lines _ bs _ rb hrb harb
   intro b hb rbb hrbb harbb
   exact chunk_rows f conv hL nt h1 hnt b (trail b) (hfacts b hb).1 (hfacts b hb).2.1 (hfacts b hb).2.2 (htrail b)
-    (hsz k (List.mem_range.mp hk) bs hbs b hb) rbb hrbb harbb
+    (hsz b hb) rbb hrbb harbb
 
 end DmlcModel.Props.C11
